@@ -286,9 +286,12 @@ def load_parameters(file_name: StrOrPath, format_name: str | None = None, **kwar
 
     .. # noqa: D414
     """
-    io = get_project_io(format_name or infer_file_format(file_name))
+    format_name = format_name or infer_file_format(file_name)
+    io = get_project_io(format_name)
     parameters = io.load_parameters(
-        Path(file_name).as_posix(),
+        # ``*_str`` formats get passed the content itself, which isn't a path and mustn't be
+        # normalized like one (e.g. ``//`` in an expression would be changed to ``/``).
+        str(file_name) if format_name.endswith("_str") else Path(file_name).as_posix(),
         **kwargs,
     )
     parameters.source_path = Path(file_name).as_posix()
